@@ -11,7 +11,7 @@ if st:
     sys.exit("refusing: /repo working tree is not clean:\n" + st)
 head = subprocess.run("git -C /repo rev-parse HEAD", shell=True, capture_output=True, text=True).stdout.strip()
 out = os.path.join(ROOT, "build", f"{prop}.adopt.json")
-env = dict(os.environ, PYTHONPATH=ROOT, MPLBACKEND="Agg")
+env = dict(os.environ, PYTHONPATH=ROOT, MPLBACKEND="Agg", VERIF_ADOPT_BUDGET_S="3000")
 subprocess.run(["/venv/bin/python", os.path.join(ROOT, "bounded", prop.lower() + ".py"), "--tier", tier, "--seed", "0", "--out", out],
                cwd=ROOT, env=env, check=True, capture_output=True)
 st2 = subprocess.run("git -C /repo status --porcelain", shell=True, capture_output=True, text=True).stdout.strip()
